@@ -336,6 +336,8 @@ func runC16(r *ev.Run) {
 	n := pick(r, 12000, 600000)
 	for ki, k := range kinds {
 		g := rng.New(r.Seed, "C16", k.name, fmt.Sprint(r.Batch))
+		var heldText []byte
+		var heldCopy string
 		for i := 0; i < n; i++ {
 			caseID := fmt.Sprintf("%s-%d-%d", k.name, r.Batch, i)
 			cg := g.Fork()
@@ -349,6 +351,11 @@ func runC16(r *ev.Run) {
 				r.Violate("C16/marshal-error/"+k.name, caseID, "MarshalText failed: "+err.Error(), map[string]any{"addr": fmt.Sprintf("%#v", a)})
 				continue
 			}
+			// the text of the previous address is still held (an address book marshals many addresses before using any)
+			if heldText != nil && string(heldText) != heldCopy {
+				r.Violate("C16/marshalled-text-changed-later/"+k.name, caseID, "the text returned by MarshalText for one address changed when another address was marshalled", map[string]any{"was": heldCopy, "now": string(heldText)})
+			}
+			heldText, heldCopy = text, string(text)
 			if a.String() != string(text) {
 				// String and MarshalText are allowed to differ, only count it
 				r.Count("string_differs_from_marshal", 1)
